@@ -662,11 +662,24 @@ def r6(ctx):
     g = CFG(f.node)
     lnode = g.nodes_of(loop)[0]
     body_in = [n for n in g.nodes if n.kind == "branch" and n.label == "body" and n.stmt is loop][0]
-    apps = [c for c in calls(loop, tail="append")]
-    acc = {U(c.func.value) for c in apps}
+    # the chosen rows are accumulated either in a list (append) or in a boolean vector over the screen's rows (ACC[idx] = True)
+    fsd = single_defs(f.node)
+    masks = {n.targets[0].id for n in walk_own(f.node) if isinstance(n, ast.Assign) and len(n.targets) == 1 and isinstance(n.targets[0], ast.Name)
+             and U(n.value).replace(" ", "") in (f"np.zeros({S}.size,dtype=bool)", f"np.zeros(len({S}.observations),dtype=bool)")}
+
+    class _W:          # one write of a chosen row: where (anchor node for the CFG), into what, which index expression
+        def __init__(self, anchor, acc, value):
+            self.anchor, self.acc, self.value = anchor, acc, value
+    def writes_in(root):
+        out = [_W(c, U(c.func.value), c.args[0]) for c in calls(root, tail="append") if c.args]
+        out += [_W(n, U(n.targets[0].value), n.targets[0].slice) for n in walk_own(root) if isinstance(n, ast.Assign) and len(n.targets) == 1 and isinstance(n.targets[0], ast.Subscript)
+                and U(n.targets[0].value) in masks and isinstance(n.value, ast.Constant) and n.value.value is True]
+        return out
+    apps = writes_in(loop)
+    acc = {w.acc for w in apps}
     ctx.need(len(acc) == 1, f"{f.site()}: chosen-index accumulator not found")
     acc = acc.pop()
-    app_nodes = {id(g.node_containing(c)) for c in apps}
+    app_nodes = {id(g.node_containing(w.anchor)) for w in apps}
     ok = g.must_pass(body_in, lnode, lambda n: id(n) in app_nodes)
     ctx.check("R6", f"{f.site()}::every-sample-gets-a-row", ok, "both arms of the per-sample loop append a chosen row",
               "a path through the per-sample loop appends nothing: that sample has no observed experiment in the initial plate")
@@ -674,9 +687,11 @@ def r6(ctx):
     par = enclosing_map(f.node)
     good = True
     detail = []
-    for c in apps:
-        blk = par.get(par.get(c))
-        body = blk.body if isinstance(blk, ast.If) and any(par.get(c) is x for x in blk.body) else (blk.orelse if isinstance(blk, ast.If) else [])
+    for w_ in apps:
+        c = w_.anchor
+        stmt_ = c if isinstance(c, ast.stmt) else par.get(c)
+        blk = par.get(stmt_)
+        body = blk.body if isinstance(blk, ast.If) and any(stmt_ is x for x in blk.body) else (blk.orelse if isinstance(blk, ast.If) else [])
         benv = {}
         for st in body:
             if isinstance(st, ast.Assign) and isinstance(st.targets[0], ast.Name):
@@ -687,13 +702,13 @@ def r6(ctx):
                 outer[st.targets[0].id] = st.value
         fenv = {k: v for k, v in single_defs(f.node).items() if k not in outer and k not in benv}
         env_all = {**fenv, **outer, **benv}
-        v = inline(c.args[0], {k: x for k, x in env_all.items()})
+        v = inline(w_.value, {k: x for k, x in env_all.items()})
         verdict = _drawn_among_sample_rows(v, S, sid)
         if verdict is None:
-            raise AnalysisError(f"{f.site()}: the population `{U(c.args[0])}` of a chosen index is not of the form rows[mask] / flatnonzero(mask)")
+            raise AnalysisError(f"{f.site()}: the population `{U(w_.value)}` of a chosen index is not of the form rows[mask] / flatnonzero(mask)")
         if not verdict:
             good = False
-            detail.append(U(c.args[0]))
+            detail.append(U(w_.value))
     ctx.check("R6", f"{f.site()}::row-of-that-sample", good, f"each chosen index is drawn among rows with sample_ids == {sid}",
               f"a chosen index is not drawn among the rows of the current sample: {detail}")
     wl = [n for n in walk_own(f.node) if isinstance(n, ast.While)]
@@ -713,14 +728,16 @@ def r6(ctx):
                 and len(second.body) == 1 and isinstance(second.body[0], ast.Break):
             rem = first.targets[0].id
             exit_ok = N.b(second.test, integer=True) == N.b(parse_expr(f"len({rem}) == 0"), integer=True)
-            ok = exit_ok and bool(cov) and U(first.value).replace(" ", "") == f"np.setdiff1d({S}.treatment_ids,list({cov[0]}))" and len(breaks) == 1 \
+            alias = {k: v for k, v in fsd.items() if isinstance(v, ast.Attribute)}
+            ok = exit_ok and bool(cov) and U(inline(first.value, alias)).replace(" ", "") == f"np.setdiff1d({S}.treatment_ids,list({cov[0]}))" and len(breaks) == 1 \
                 and not any(isinstance(n, ast.Assign) and U(n.targets[0]) == rem for n in walk_own(w) if n is not first)
     else:
         if isinstance(t, ast.Compare) and isinstance(t.left, ast.Call) and call_name(t.left) == "len" and isinstance(t.ops[0], ast.Gt) and U(t.comparators[0]) == "0":
             rem = U(t.left.args[0])
         elif isinstance(t, ast.Call) and call_name(t) == "len" and t.args:
             rem = U(t.args[0])
-        defs = [U(n.value).replace(" ", "") for n in walk_own(f.node) if isinstance(n, ast.Assign) and rem and U(n.targets[0]) == rem]
+        alias = {k: v for k, v in fsd.items() if isinstance(v, ast.Attribute)}
+        defs = [U(inline(n.value, alias)).replace(" ", "") for n in walk_own(f.node) if isinstance(n, ast.Assign) and rem and U(n.targets[0]) == rem]
         ok = rem is not None and len(defs) == 2 and len(set(defs)) == 1 and bool(cov) and defs[0] == f"np.setdiff1d({S}.treatment_ids,list({cov[0]}))" \
             and not breaks and any(isinstance(n, ast.Assign) and U(n.targets[0]) == rem for n in w.body)
     ctx.check("R6", f"{f.site()}::cover-until-none-left", ok, "loops while setdiff(all treatment ids, covered) is non-empty, recomputed each round, no other exit",
